@@ -13,6 +13,7 @@ import diffrun
 import lyast
 import lyref
 import gen_modules
+import gen_modfibers
 
 PROP = 'C17'
 BINS = {}
@@ -42,7 +43,67 @@ def one(args):
             'expected': {'out': m['out'][-30:], 'outcome': m['outcome']}}
 
 
+KNOWN_CASES = '/verif/known_import_fiber_cases.json'
+
+
+def fiber_case(args):
+    i, label, files, body_kind = args
+    whys = []
+    for cfg in ('dbg', 'rel'):
+        d = os.path.join(WORK[0], 'mf%d_%s' % (i, cfg))
+        os.makedirs(d, exist_ok=True)
+        for k, v in files.items():
+            open(os.path.join(d, k), 'w').write(v)
+        r = vlib.lyrun(BINS[cfg], os.path.join(d, 'main.lay'), ['--steps', '2000000'], timeout=30, cwd=d)
+        if r.outcome in ('timeout', 'harness'):
+            return label, None, files
+        whys.append(gen_modfibers.judge(label, body_kind, r.outcome, r.out))
+    # the worse of the two builds, as one stable word sequence
+    why = whys[0] or whys[1]
+    return label, why, files
+
+
+def fiber_imports(chk):
+    """imports while other fibers exist: an enumerated, seed-independent family; the cases on which the tree shows
+    D45 are listed one by one (with how they fail) in known_import_fiber_cases.json"""
+    import json
+    try:
+        known = json.load(open(KNOWN_CASES))['failing']
+    except (OSError, ValueError, KeyError):
+        known = {}
+    jobs = [(i, label, files, bk) for i, (label, files, bk) in enumerate(gen_modfibers.cases())]
+    for label, why, files in vlib.pmap(fiber_case, jobs, chunksize=2):
+        if why is None:
+            chk.inconclusive.append('fiber/import case did not finish: ' + label)
+            continue
+        chk.evaluations += 2
+        chk.count('fiber_import_cases')
+        if not why:
+            chk.count('fiber_import_cases_history_ok')
+            continue
+        if known.get(label) == why:
+            chk.count('fiber_import_cases_known_failures')
+            fid = 'D5' if 'panic' in why else 'D45'      # the scheduler assertion is C08's finding, met here too
+            f = [x for x in chk.findings['findings'] if x['id'] == fid]
+            chk.known.setdefault(fid, {'what': f[0]['what_fails'] if f else 'import with other fibers', 'n': 0})
+            chk.known[fid]['n'] += 1
+        else:
+            chk.violation('import with fibers [%s] (%s): %s' % (
+                label, 'listed as "%s"' % known[label] if label in known else 'not listed in known_import_fiber_cases.json',
+                why), files, {'label': label})
+
+
 def main():
+    if '--make-known' in sys.argv:
+        import json
+        BINS['dbg'] = vlib.build('dbg')['lyrun']
+        BINS['rel'] = vlib.build('rel')['lyrun']
+        WORK[0] = vlib.workdir('known_import_fiber')
+        jobs = [(i, label, files, bk) for i, (label, files, bk) in enumerate(gen_modfibers.cases())]
+        failing = {label: why for label, why, files in vlib.pmap(fiber_case, jobs, chunksize=2) if why}
+        json.dump({'failing': failing}, open(KNOWN_CASES, 'w'), indent=0, sort_keys=True)
+        print(len(failing), 'of', len(jobs), 'fiber/import cases show D45')
+        return 0
     tier = sys.argv[sys.argv.index('--tier') + 1] if '--tier' in sys.argv else 'quick'
     chk = vlib.Check(PROP, tier)
     n = int(os.environ.get('VERIF_N', '0')) or (1000 if tier == 'quick' else 40000)
@@ -53,6 +114,8 @@ def main():
         sys.stderr.write(str(e) + '\n')
         return 2
     WORK[0] = vlib.workdir(PROP)
+    chk.run_witnesses(BINS['dbg'])
+    fiber_imports(chk)
     tags = {}
     for r in vlib.pmap(one, [(chk.seed, i) for i in range(n)], chunksize=4):
         if 'refused' in r:
